@@ -21,7 +21,7 @@ git -C /repo worktree add --detach $wt HEAD -q || exit 2
 demo=$src/m${n}_demo.py
 rundemo() {
   case "$demo" in
-    *.py) (cd $wt && PYTHONPATH=$wt timeout 1500 /venv/bin/python -m pytest -q -p no:cacheprovider --timeout=600 $demo > $1 2>&1; echo $?) ;;
+    *.py) (cd $wt && PYTHONPATH=$wt timeout 1500 /venv/bin/python -m pytest -q -p no:cacheprovider --timeout=600 -n 1 $demo > $1 2>&1; echo $?) ;;
   esac
 }
 if [ "${SKIP_DEMO:-0}" != "1" ]; then rc0=$(rundemo $logs/$id-m$n.demo_pristine.log); echo "demo_pristine_rc=$rc0" >> $sum; fi
